@@ -94,6 +94,7 @@ def run(chk):
         "maps; feasibility of internal isinstance assertions per resolved caller."
     )
     chk.rule("R1", f"{len(INSTANCES)} rejection-rule instances: a `raise <documented exception>` controlled by a test on the relevant state")
+    chk.rule("R1v", "verb validation interpreted on stub tables (select, group_by, slice_head, rename): every rejection rule fires with the documented exception, the accepted neighbours are accepted")
     chk.rule("R2", "checks on nested constructs iterate a subtree traversal; iter_children and map_children cover the same attributes")
     chk.rule("R3", "eager validation: ColFn / CaseExpr / Cast constructors call dtype(); preprocess_arg forces dtype() and ftype()")
     chk.rule("R4", "no exception object is constructed and then dropped")
@@ -121,6 +122,8 @@ def run(chk):
                f"rule instance `{iid}`: `{fq}` has no `raise {exc}` controlled by a test mentioning {needles}: {what} is no longer "
                "rejected by the verb call with the documented exception")  # fmt: skip
     chk.floor("R1", "rule instances", len(INSTANCES), 25)
+
+    _verb_scenarios(chk)
 
     # ---- R2
     for short, fq, trav in TRAVERSAL_USERS:
@@ -257,3 +260,73 @@ def _a16(chk, sym):
                 names = isinstance_classes(sym, mod, a.test.args[1]) or []
                 chk.ok("R5", mod, a, f"{qual_of(f)}: {norm(a)[:80]} (local belief; callers judged where the subject is a parameter)")
     chk.floor("R5", "internal assert isinstance statements", n, 12)
+
+
+def _verb_scenarios(chk):
+    from ..catalogue import DT
+    from ..verbsim import Native, World, stub_preprocess_arg
+
+    vb = chk.repo.mod("pipe.verbs")
+    I = DT("Int64")
+    n = 0
+
+    def world():
+        w = World(vb)
+        w.env["preprocess_arg"] = stub_preprocess_arg(w)
+        w.accept_on("Select", "GroupBy", "SliceHead", "Rename")
+        t = w.table("t", [("a", I), ("b", I)], hidden=[("h", I)])
+        other = w.table("o", [("z", I)])
+        cols = {c.attrs["name"]: c for c in t.attrs["_cache"].attrs["cols"].values()}
+        return w, t, other, cols
+
+    def cname(w, nm):
+        return w.obj("ColName", name=nm)
+
+    cases = []
+    # ---- select
+    cases += [
+        ("select", "visible column by reference", lambda w, t, o, c: ([t, c["a"]], {}), ("accepted",)),
+        ("select", "visible column by C.name", lambda w, t, o, c: ([t, cname(w, "b")], {}), ("accepted",)),
+        ("select", "visible column by string", lambda w, t, o, c: ([t, "a"], {}), ("accepted",)),
+        ("select", "unknown C.name", lambda w, t, o, c: ([t, cname(w, "zz")], {}), ("raise", "ColumnNotFoundError")),
+        ("select", "unknown string", lambda w, t, o, c: ([t, "zz"], {}), ("raise", "ColumnNotFoundError")),
+        ("select", "hidden column by reference", lambda w, t, o, c: ([t, c["h"]], {}), ("raise", "ColumnNotFoundError")),
+        ("select", "column of another table", lambda w, t, o, c: ([t, list(o.attrs["_cache"].attrs["cols"].values())[0]], {}), ("raise", "ColumnNotFoundError")),
+    ]
+    # ---- group_by
+    cases += [
+        ("group_by", "visible column", lambda w, t, o, c: ([t, c["a"]], {"add": False}), ("accepted",)),
+        ("group_by", "hidden column by reference", lambda w, t, o, c: ([t, c["h"]], {"add": False}), ("raise", "ValueError")),
+        ("group_by", "unknown string", lambda w, t, o, c: ([t, "zz"], {"add": False}), ("raise", "ColumnNotFoundError")),
+    ]
+    # ---- slice_head
+    cases += [
+        ("slice_head", "ungrouped table", lambda w, t, o, c: ([t, 3], {"offset": 0}), ("accepted",)),
+        ("slice_head", "grouped table", lambda w, t, o, c: ([_grouped(t), 3], {"offset": 0}), ("raise", "ValueError")),
+    ]
+    # ---- rename
+    cases += [
+        ("rename", "swap two names", lambda w, t, o, c: ([t, {"a": "b", "b": "a"}], {}), ("accepted",)),
+        ("rename", "by reference", lambda w, t, o, c: ([t, {c["a"]: "x"}], {}), ("accepted",)),
+        ("rename", "unknown name", lambda w, t, o, c: ([t, {"zz": "x"}], {}), ("raise", "ValueError")),
+        ("rename", "hidden column by reference", lambda w, t, o, c: ([t, {c["h"]: "x"}], {}), ("raise", "ValueError")),
+        ("rename", "new name equals a column that keeps its name", lambda w, t, o, c: ([t, {"a": "b"}], {}), ("raise", "ValueError")),
+        ("rename", "two columns get the same new name", lambda w, t, o, c: ([t, {"a": "x", "b": "x"}], {}), ("raise", "ValueError")),
+        ("rename", "new name is not a string", lambda w, t, o, c: ([t, {"a": 5}], {}), ("raise", "TypeError")),
+        ("rename", "key of a wrong type", lambda w, t, o, c: ([t, {5: "x"}], {}), ("raise", "TypeError")),
+    ]
+
+    def _grouped(t):
+        t.attrs["_cache"].attrs["partition_by"] = [t.attrs["_cache"].attrs["name_to_uuid"]["a"]]
+        return t
+
+    for verb_name, label, build, want in cases:
+        w, t, o, c = world()
+        f = vb.func(verb_name)
+        args, kwargs = build(w, t, o, c)
+        # verbs are written with `*cols` / keyword-only parameters: the interpreter binds them like Python does
+        got = w.run(f, args, kwargs)
+        n += 1
+        chk.ob("R1v", vb, f, f"{verb_name}: {label} -> {' '.join(want)}", tuple(got[: len(want)]) == want,
+               f"`{verb_name}`, scenario `{label}`: expected {' '.join(want)}, the interpreted verb gives {got[:3]}")  # fmt: skip
+    chk.floor("R1v", "verb validation scenarios", n, 20)
